@@ -324,7 +324,7 @@ PROP = {
     "prop_file": "theories/Props/C07.v",
     "proof_files": ["theories/Proofs/AstJsonProofs.v", "theories/Proofs/JsonPrintProofs.v", "theories/Proofs/AstJsonInj.v",
                     "theories/Proofs/IpTextProofs.v", "theories/Proofs/LitsTyped.v", "theories/Proofs/LayoutProofs.v",
-                    "theories/Proofs/C07Proofs.v"],
+                    "theories/Proofs/C07Proofs.v", "theories/Proofs/IpsProofs.v"],
     "gen": gen,
     "nontrivial": nontrivial,
     "distribution": distribution,
